@@ -1766,6 +1766,27 @@ pub fn extra_findings(o: &ExecOutcome, cfg: &StuckCfg) -> (Vec<Finding>, Vec<Str
           "spontaneous_repolls_ready": s.forced_ready, "canary_max_gap_us": s.canary_max_gap_us,
           "workers_asleep": s.parked, "worker_states": s.parked_detail}),
       });
+      // the disconnect clause: once the other side is gone a blocked / pending operation must end with
+      // Closed / Disconnected, it may not stay blocked
+      let gone: Vec<&Value> = s
+        .blocked
+        .iter()
+        .filter(|b| b.get("why").and_then(|w| w.as_str()).map_or(false, |w| w.starts_with("every receiver handle") || w.starts_with("every sender handle")))
+        .collect();
+      if !gone.is_empty() {
+        let is_send = gone[0].get("why").and_then(|w| w.as_str()).map_or(false, |w| w.starts_with("every receiver"));
+        f.push(Finding {
+          prop: "C04",
+          rule: if is_send { "send-blocked-after-receivers-gone".to_string() } else { "recv-blocked-after-senders-gone".to_string() },
+          summary: format!(
+            "{} stayed blocked / pending after every {} handle had been closed or dropped: it never reported {}",
+            gone[0].get("op").and_then(|x| x.as_str()).unwrap_or("?"),
+            if is_send { "receiver" } else { "sender" },
+            if is_send { "Closed" } else { "Disconnected" }
+          ),
+          detail: json!({"blocked": s.blocked, "nudge_released": s.nudge_released}),
+        });
+      }
     } else {
       inconclusive.push(format!("stuck but not decidable: {}", s.reason));
     }
